@@ -33,6 +33,7 @@ class RunResult(object):
         self.end_state = None
         self.summary = None       # small JSON-able description
         self.tape = None
+        self.poisoned = False    # an unkillable OS thread is left behind
 
 
 class Agg(object):
@@ -104,6 +105,7 @@ class Agg(object):
 def run_case(prop, seed, index, tier):
     """Execute case `index` of the plan; returns (scenario, RunResult)."""
     scenario = prop.scenario_for(seed, index, tier)
+    scenario['_prop'] = prop.ID
     tape = prop.tape_for(scenario, seed, index) \
         if hasattr(prop, 'tape_for') else None
     if tape is None:
@@ -117,6 +119,7 @@ def run_case(prop, seed, index, tier):
 
 
 def replay_case(prop, scenario, tape_sparse):
+    scenario['_prop'] = prop.ID
     tape = Tape(replay=tape_sparse)
     res = prop.execute(scenario, tape)
     res.tape = tape.sparse()
@@ -143,6 +146,14 @@ def _worker(prop_id, seed, tier, wno, nworkers, total, deadline, outpath):
                     break
                 continue
             agg.add(index, res, scenario)
+            if getattr(res, 'poisoned', False):
+                # a library thread spins for real and cannot be killed:
+                # report what we have and leave the process
+                agg.cut_short = True
+                with open(outpath + '.tmp', 'w') as f:
+                    json.dump(agg.to_json(), f, default=repr)
+                os.rename(outpath + '.tmp', outpath)
+                os._exit(0)
     except BaseException:
         agg.harness_errors.append('worker %d crashed: %s'
                                   % (wno, traceback.format_exc()))
@@ -367,6 +378,8 @@ def run_check(prop, tier, seed, nworkers, total=None, wall_cap=None,
         n_viol += 1
         budget = (45.0 if tier == 'quick' else 120.0) if n_viol <= 3 else \
             (10.0 if n_viol <= 6 else 0.0)
+        if '/real-hang' in sig:
+            budget = 0.0          # every attempt would cost a wall time-out
         sc2, tp2, ok = shrink(prop, scenario, tape, sig, budget_s=budget) \
             if budget else (scenario, tape, False)
         path = write_replay(prop, sig, sc2, tp2, detail, seed, index, ok)
